@@ -172,8 +172,7 @@ def exportString (d : Doc) (o : Opts) : Except Err Str := do
   let nStarts := d.starts.length
   let toStage : Nat := match o.toM with
     | some t =>
-      if t < (nStarts : Int) then
-        (if t < (nStarts : Int) - 1 then d.starts[t.toNat]?.getD (nStages - 1) else nStages - 1)
+      if t < (nStarts : Int) then d.starts[t.toNat]?.getD (nStages - 1)
       else nStages - 1
     | none => nStages - 1
   let hasFrom : Bool := match o.fromM with | some f => f != 0 | none => false
